@@ -3,7 +3,7 @@ from fractions import Fraction
 
 from ..common import rng
 from ..drivers import behaviours
-from ..drivers import programs, targeted
+from ..drivers import evo, programs, targeted
 from ._twin import replay_programs, run_programs, run_suite
 
 
@@ -21,6 +21,7 @@ def check(run, tier):
     r = rng("C04")
     progs = targeted.worklist_programs("evo") + targeted.shape_programs("fluent") + targeted.shape_programs("evo")
     progs += targeted.round2_programs("evo") + targeted.round2_programs("fluent")
+    progs += evo.rounding_programs()  # script commands: the labware is booked with what was asked for, not with the rounded text
     n = 150 if q else 3000
     for i in range(n):
         dev = "evo" if i % 2 == 0 else "fluent"
